@@ -118,10 +118,9 @@ class Eval(Unary):
                     conn.execute(build_create_table_sql(ds_name, schemas[ds_name]))
                 result = conn.execute(query)
                 column_names = [col[0] for col in result.description or []]
+            finally:
+                # Also on KeyboardInterrupt / SystemExit, which `except Exception` does not see
                 conn.close()
-            except Exception as e:
-                conn.close()
-                raise RunTimeError("2-1-1-1", op="eval", error=e)
         except RunTimeError:
             raise
         except Exception as e:
